@@ -1306,10 +1306,6 @@ func (f *Flooder) markSleepCmdSeen(originAgent identity.AgentID, commandID uint6
 // HandleSleepCommand processes an incoming SLEEP_COMMAND frame.
 // Returns true if the command was new and should be processed.
 func (f *Flooder) HandleSleepCommand(fromPeer identity.AgentID, cmd *protocol.SleepCommand) bool {
-	if !f.markSleepCmdSeen(cmd.OriginAgent, cmd.CommandID, fromPeer) {
-		return false
-	}
-
 	if containsAgent(cmd.SeenBy, f.localID) {
 		return false
 	}
@@ -1321,6 +1317,13 @@ func (f *Flooder) HandleSleepCommand(fromPeer identity.AgentID, cmd *protocol.Sl
 			"command_id", cmd.CommandID,
 			"from_peer", fromPeer.ShortString(),
 			logging.KeyError, err)
+		return false
+	}
+
+	// Only verified commands enter the seen cache: otherwise forged commands
+	// with fresh IDs could fill it and push out the entry of a genuine
+	// command, which could then be replayed.
+	if !f.markSleepCmdSeen(cmd.OriginAgent, cmd.CommandID, fromPeer) {
 		return false
 	}
 
@@ -1339,10 +1342,6 @@ func (f *Flooder) HandleSleepCommand(fromPeer identity.AgentID, cmd *protocol.Sl
 // HandleWakeCommand processes an incoming WAKE_COMMAND frame.
 // Returns true if the command was new and should be processed.
 func (f *Flooder) HandleWakeCommand(fromPeer identity.AgentID, cmd *protocol.WakeCommand) bool {
-	if !f.markSleepCmdSeen(cmd.OriginAgent, cmd.CommandID, fromPeer) {
-		return false
-	}
-
 	if containsAgent(cmd.SeenBy, f.localID) {
 		return false
 	}
@@ -1354,6 +1353,13 @@ func (f *Flooder) HandleWakeCommand(fromPeer identity.AgentID, cmd *protocol.Wak
 			"command_id", cmd.CommandID,
 			"from_peer", fromPeer.ShortString(),
 			logging.KeyError, err)
+		return false
+	}
+
+	// Only verified commands enter the seen cache: otherwise forged commands
+	// with fresh IDs could fill it and push out the entry of a genuine
+	// command, which could then be replayed.
+	if !f.markSleepCmdSeen(cmd.OriginAgent, cmd.CommandID, fromPeer) {
 		return false
 	}
 
